@@ -19,6 +19,7 @@ type progBuilder struct {
 	elt  string
 	tag  string
 	next int // next fresh element value
+	wrap int // values wrap after this one (0: 90)
 }
 
 func newProg(r *Rng, tag, elt string) *progBuilder {
@@ -58,7 +59,11 @@ func (p *progBuilder) freshVals(n int) []int {
 	for i := range out {
 		out[i] = p.next
 		p.next++
-		if p.next > 90 {
+		w := p.wrap
+		if w == 0 {
+			w = 90
+		}
+		if p.next > w {
 			p.next = 1
 		}
 	}
@@ -83,6 +88,36 @@ func (p *progBuilder) addRoot(isC bool, shape []int) {
 		p.add(fmt.Sprintf("new %s", Is(shape)))
 	default:
 		p.add(fmt.Sprintf("gslice %s %s", Is(p.freshVals(n)), Is(shape)))
+	}
+}
+
+// addLongAxisRoots: the LONG-AXIS class. Fast paths keyed on a size threshold (row-wise copy for rows of 8/16/32+ elements,
+// chunked loops) only show on long rows. One axis (mostly the last) is long, the others stay small; a second root of the same
+// rank that fits into the first one (same long axis, mostly) gives applySlice / copyFrom sources with long rows.
+func (p *progBuilder) addLongAxisRoots(c1, c2 bool) {
+	r := p.r
+	L := []int{8, 9, 15, 16, 17, 20, 32, 33, 64}[r.Intn(9)]
+	rank := r.Range(1, 3)
+	sh := make([]int, rank)
+	for d := range sh {
+		sh[d] = r.Range(1, 4)
+	}
+	long := rank - 1
+	if r.Chance(0.2) {
+		long = r.Intn(rank)
+	}
+	sh[long] = L
+	p.wrap = 9000 // distinct values over the whole storage (exact in every element type)
+	p.addRoot(c1, sh)
+	if r.Chance(0.8) {
+		sh2 := make([]int, rank)
+		for d := range sh2 {
+			sh2[d] = r.Range(1, sh[d])
+		}
+		if r.Chance(0.7) {
+			sh2[long] = L
+		}
+		p.addRoot(c2, sh2)
 	}
 }
 
@@ -510,11 +545,17 @@ func genND(c *Ctx) {
 		if c.R.Chance(0.1) {
 			maxRank = 4
 		}
-		p.addRoot(tag != "g", p.randShape(maxRank, maxExt))
-		if c.R.Chance(0.5) {
-			p.addRoot(tag == "c", p.randShape(3, 4))
-		}
 		nops := c.R.Range(3, 30)
+		if c.R.Chance(0.15) {
+			p.addLongAxisRoots(tag != "g", tag == "c")
+			nops = c.R.Range(3, 14)
+			c.Stats.Count("long_axis_programs")
+		} else {
+			p.addRoot(tag != "g", p.randShape(maxRank, maxExt))
+			if c.R.Chance(0.5) {
+				p.addRoot(tag == "c", p.randShape(3, 4))
+			}
+		}
 		for k := 0; k < nops; k++ {
 			p.addRandomOp(arrayOps)
 		}
